@@ -223,12 +223,12 @@ Qed.
 Lemma sends_use_returned_ids_lemma max ls s :
   run (init max) ls = Some s -> sends_use_returned_ids (rev (s_log s)).
 Proof.
-  intros H h1 h2 e b host ks items st id n E HI.
+  intros H h1 h2 e b host ks items st id meta n E HI.
   destruct (inv_reachable _ _ _ H) as [[_ _ _ I4 _ _ _ _] _].
   apply rev_eq_app in E.
   pose proof (sends_ok_split _ I4 _ _ _ _ _ _ _ E) as F. rewrite Forall_forall in F.
-  specialize (F _ HI). simpl in F. destruct F as [f [t [meta [K [l3 [l2 [l1 R]]]]]]].
-  exists f, t, meta, (rev l1), (rev l2), (rev l3). split; [assumption|].
+  specialize (F _ HI). simpl in F. destruct F as [f [t [K [l3 [l2 [l1 R]]]]]].
+  exists f, t, (rev l1), (rev l2), (rev l3). split; [assumption|].
   rewrite <- (rev_involutive h1), R. rewrite rev_app_distr. simpl. rewrite rev_app_distr. simpl.
   rewrite <- !app_assoc. reflexivity.
 Qed.
